@@ -527,6 +527,22 @@ fn op_build(defs: &[D], lines: &mut Vec<String>) {
             .and_then(|x| resolve(&ii, &x.value));
         lines.push(opt_line(format!("res {n}"), r));
     }
+    // the exchange half of the same read: the instrument found by name, its exchange reference read
+    // back by position through the exchange table (holds for every collection, well-formed or not)
+    for (n, d) in defs.iter().enumerate() {
+        let r = ii
+            .find_instrument_index(EXS[d.e], &ins_ni(d.ni))
+            .ok()
+            .and_then(|k| ii.instruments().get(k.0))
+            .and_then(|x| {
+                let ex = ii.exchanges().get(x.value.exchange.key.0)?;
+                (ex.value == x.value.exchange.value).then(|| label(ex.value))
+            });
+        lines.push(match r {
+            Some(e) => format!("resx {n} {e}"),
+            None => format!("resx {n} none"),
+        });
+    }
     // find_* round trips
     let rt_e = (0..ii.exchanges().len()).all(|k| {
         ii.find_exchange(ExchangeIndex(k))
@@ -648,6 +664,44 @@ fn op_engine(defs: &[D], lines: &mut Vec<String>) {
         }))
         .unwrap_or(None);
         lines.push(opt_line(format!("eres {n}"), r));
+    }
+    // the same read through the accessors the ENGINE routes through (`instrument_index_mut`,
+    // `asset_index_mut`, `connectivity_index_mut` and `connectivity_index`): each must hand out the
+    // entry at the position the index names. The connectivity accessors return the state without
+    // its key, so they are identified by address with the raw positional entry.
+    let mut state = state;
+    for (n, d) in defs.iter().enumerate() {
+        let r = catch_unwind(AssertUnwindSafe(|| {
+            let k = ii.find_instrument_index(EXS[d.e], &ins_ni(d.ni)).ok()?;
+            let (key, instrument) = {
+                let st = state.instruments.instrument_index_mut(&k);
+                (st.key, st.instrument.clone())
+            };
+            if key != k {
+                return None;
+            }
+            let ex_idx = instrument.exchange;
+            let via_mut = state.connectivity.connectivity_index_mut(&ex_idx) as *const _;
+            let via_ref = state.connectivity.connectivity_index(&ex_idx) as *const _;
+            let (exchange, raw) = state.connectivity.exchanges.get_index(ex_idx.0)?;
+            if !std::ptr::eq(via_mut, raw) || !std::ptr::eq(via_ref, raw) {
+                return None;
+            }
+            let exchange = *exchange;
+            let assets = std::cell::RefCell::new(&mut state.assets);
+            undef(
+                &instrument,
+                |_| EXS.iter().position(|x| *x == exchange),
+                |a: &AssetIndex| {
+                    let mut assets = assets.borrow_mut();
+                    let asset = assets.asset_index_mut(a).asset.clone();
+                    let (key, _) = assets.0.get_index(a.0)?;
+                    (key.exchange == exchange && key.asset == asset.name_internal).then(|| unasset(&asset))
+                },
+            )
+        }))
+        .unwrap_or(None);
+        lines.push(opt_line(format!("eresm {n}"), r));
     }
 }
 
@@ -816,6 +870,10 @@ struct Gen {
     rng: Rng,
     /// all assets of a case obey "internal name determines exchange name within an exchange"
     wf: bool,
+    /// (with `wf`) a near-copy on ANOTHER exchange keeps its instrument internal name: names unique
+    /// within each exchange but not over the collection - the IndexedInstruments clauses (`res`,
+    /// `rt`) hold there, the engine's name-keyed table does not (oracle review C11-M1)
+    shared: bool,
     n_ex: usize,
     next_name: usize,
 }
@@ -891,7 +949,9 @@ impl Gen {
                 d.e = self.rng.below(self.n_ex as u64) as usize;
                 if self.wf {
                     self.next_name += 1;
-                    d.ni = self.next_name;
+                    if !(self.shared && !v.iter().any(|x| x.e == d.e && x.ni == d.ni)) {
+                        d.ni = self.next_name;
+                    }
                     let e = d.e;
                     let fix = |a: &mut A| a.1 = a.0 + if e % 2 == 1 { 10 } else { 0 };
                     fix(&mut d.base);
@@ -994,6 +1054,7 @@ fn generate(seed: u64, n_cases: usize, tier: &str) {
                 let mut g = Gen {
                     rng: rng.fork(),
                     wf: id % 5 != 0,
+                    shared: id % 4 == 1,
                     n_ex: 1 + (id % 3),
                     next_name: 0,
                 };
@@ -1006,6 +1067,7 @@ fn generate(seed: u64, n_cases: usize, tier: &str) {
         let mut g = Gen {
             rng: rng.fork(),
             wf: !rng.chance(12),
+            shared: id % 6 == 1,
             n_ex: rng.range(1, 4) as usize,
             next_name: 0,
         };
